@@ -243,6 +243,7 @@ func (e *Engine) rangeInit(st *State, ins *ssa.Range) Value {
 		st.ghost["itcnt:"+ins.Name()] = IntLit(0)
 		dks := e.mapDomKS(mt)
 		st.ghost["itdom:"+ins.Name()] = st.heapArr(dks.Key, dks.Sort)
+		st.ghost["itdomv:"+ins.Name()] = Select(st.heapArr(dks.Key, dks.Sort), m)
 		return IterV{R: ins, IsMap: true, Map: m, MapT: mt}
 	}
 	// string
@@ -277,6 +278,12 @@ func (e *Engine) next(st *State, ins *ssa.Next) Value {
 				ln := e.mapLen(st, mt, it.Map)
 				st.assume(Implies(okT, Lt(cnt, ln)))
 				st.assume(Implies(Not(okT), Eq(cnt, ln)))
+			} else if dv, ok := st.ghost["itdomv:"+it.R.Name()]; ok {
+				// maps of this type were written during the iteration: the facts
+				// hold provided this map's key set is still the one it started with
+				ln := e.mapLen(st, mt, it.Map)
+				same := Eq(Select(st.heapArr(dks.Key, dks.Sort), it.Map), dv.(Term))
+				st.assume(Implies(same, And(Implies(okT, Lt(cnt, ln)), Implies(Not(okT), Eq(cnt, ln)))))
 			}
 			st.ghost["itcnt:"+it.R.Name()] = e.ctx.Define("itcnt", Ite(okT, Add(cnt, IntLit(1)), cnt))
 		}
